@@ -280,7 +280,19 @@ pub fn check_written(expected: &CClass, written: &[u8], obs: &mut Obs) -> Result
 pub fn write_tree(tree: &duke::tree::class::ClassFile) -> Result<Vec<u8>, String> {
 	let mut buf = Vec::new();
 	match duke::write_class(&mut buf, tree) {
-		Ok(()) => Ok(buf),
+		Ok(()) => {
+			// the same class written into a sink that takes only a few bytes per call must arrive completely
+			if buf.len() < 8000 {
+				let mut short = crate::engine::ShortWrites::new();
+				if let Err(e) = duke::write_class(&mut short, tree) {
+					return Err(format!("write into a sink with short writes failed: {e:#}"));
+				}
+				if short.out != buf {
+					return Err(format!("INCOMPLETE: a sink that takes 1..7 bytes per call received {} bytes, a Vec received {}", short.out.len(), buf.len()));
+				}
+			}
+			Ok(buf)
+		}
 		Err(e) => Err(format!("{e:#}")),
 	}
 }
